@@ -10,7 +10,7 @@
    ways to crash / hang the pinned tree are gone.  The totality of the four key handlers and of the
    phrase selector as one theorem over all histories (run never returns Panic / OutOfFuel) is
    stated at the end and not yet proved; it is covered by the two ties only. *)
-From Coq Require Import NArith List Bool Arith.
+From Coq Require Import NArith List Bool Arith Lia.
 From LC Require Import Base.Lib Gen.Editor_gen Model.Syllable Model.Composition Model.Conversion Model.Editor Model.EditorRun
      Model.EdInst Proofs.CompositionProofs Proofs.EditorInv Proofs.EditorWitness Proofs.NoPanic.
 Import ListNotations.
